@@ -381,6 +381,13 @@ def run_one(case):
     obs = {}
     try:
         worst = 0.0
+        # a rejected application (wrong rank) must leave nothing behind in the expression
+        for bad_ in (tuple(ish) + (2,), tuple(ish)[:-1], tuple(ish)[1:]):
+            try:
+                A(np.ones(bad_, dt))
+            except Exception:
+                pass
+        held_first = None
         for k in range(2):
             with structured((sum(case["rs"]) // 3) % 9 if sum(case["rs"]) % 2 else 0):
                 x = crandn(rng, ish, dt)
@@ -388,6 +395,13 @@ def run_one(case):
                 x = np.asfortranarray(x)            # memory-layout variant
             STATE.peak = 0.0
             got = np.asarray(A(x))
+            if k == 0:
+                held_first = (got, got.copy())
+            elif held_first is not None and not np.array_equal(held_first[0], held_first[1],
+                                                               equal_nan=True):
+                return violated(sig, "the array returned by the first application changed "
+                                "when the expression was applied to other data (results share "
+                                "storage)", wit, mech="result-alias")
             ref, noise = spec.noise(desc, x)
             ref = np.asarray(ref)
             peak = STATE.peak     # largest intermediate ||.|| seen by the apply hook
